@@ -105,6 +105,9 @@ func c12Run(threads, perThread int) {
 		if sym.Thorough() {
 			nreq = len(c12Requests)
 		}
+		if n > 2 {
+			nreq = 3 // three or four requests in flight: fields and both method fields (the first-use windows of one type)
+		}
 		reqs[k] = sym.Choice("request", nreq)
 	}
 	// alone, each on its own fresh (cold) root
@@ -141,12 +144,15 @@ func C12_cold() {
 	}
 	switch shape {
 	case 0:
+		if sym.Thorough() {
+			sym.Preemptions(3) // (unbounded, and 4, did not finish in two hours)
+		}
 		c12Run(2, 1)
 	case 1:
 		sym.Preemptions(2)
 		c12Run(3, 1)
 	default:
-		sym.Preemptions(3)
+		sym.Preemptions(2)
 		c12Run(2, 2)
 	}
 }
